@@ -587,7 +587,22 @@ func (w *World) Dump(ctx sdk.Context) M {
 			}
 			return ubds[i]["val"].(int) < ubds[j]["val"].(int)
 		})
-		st["staking"] = M{"validators": vals, "delegations": dels, "unbonding": ubds}
+		// pending redelegation entries per (delegator, source, destination): x/staking refuses transitive redelegations and
+		// more than MaxEntries per triple
+		reds := []M{}
+		app.StakingKeeper.IterateRedelegations(ctx, func(_ int64, r stakingtypes.Redelegation) bool {
+			reds = append(reds, M{"del": w.Addr.ID(r.DelegatorAddress), "src": w.Val.ID(r.ValidatorSrcAddress), "dst": w.Val.ID(r.ValidatorDstAddress), "entries": len(r.Entries)})
+			return false
+		})
+		sort.Slice(reds, func(i, j int) bool {
+			for _, k := range []string{"del", "src", "dst"} {
+				if reds[i][k].(int) != reds[j][k].(int) {
+					return reds[i][k].(int) < reds[j][k].(int)
+				}
+			}
+			return false
+		})
+		st["staking"] = M{"validators": vals, "delegations": dels, "unbonding": ubds, "redelegations": reds}
 	}
 	st["global"] = decN(nodeGlobal())
 	if len(bad) > 0 {
